@@ -800,25 +800,24 @@ class CallMixin:
                     else:
                         normal.append((s2.pc[len(base_pc) + 1:], TRUE, v))
                         self._comp_states = getattr(self, "_comp_states", []) + [s2]
+        # facts that are consequences of discharged safe/pre obligations or callee postconditions are not
+        # conditions on the index: drop them from the per-index conditions
+        all_facts = set()
+        for st_n in getattr(self, "_comp_states", []):
+            all_facts |= st_n.facts
+        for s1, v in out:
+            all_facts |= s1.facts
+        normal = [(tuple(t for t in pcx if t not in all_facts), cnd, v) for pcx, cnd, v in normal]
+        out = [(self._strip_facts(s1, base_pc, all_facts, lambda t: True), v) for s1, v in out]
         skolem = False
         if len(self.decls) != ndecl and any(v is not None for _, _, v in normal):
-            # element evaluation introduced fresh symbols (callee results): if the element value or the
+            # element evaluation introduced fresh symbols (callee results): if the element value or the remaining
             # path conditions mention one of them, they depend on j and the closed-form facts are not available
             new_names = []
             for dline in self.decls[ndecl:]:
                 parts = dline.replace("(", " ").split()
                 if len(parts) >= 2 and parts[0] == "declare-const":
                     new_names.append(parts[1])
-            def mentions_new(t):
-                return any(_re.search(r"(?<![\w])" + _re.escape(nm) + r"(?![\w])", t) for nm in new_names)
-            # facts about callee results (postconditions of terminating callees) are not conditions on the index
-            all_facts = set()
-            for s1, v in out:
-                all_facts |= s1.facts
-            for st_n in getattr(self, "_comp_states", []):
-                all_facts |= st_n.facts
-            normal = [(tuple(t for t in pcx if not (t in all_facts and mentions_new(t))), cnd, v) for pcx, cnd, v in normal]
-            out = [(self._strip_facts(s1, base_pc, all_facts, mentions_new), v) for s1, v in out]
             texts = []
             for pcx, cnd, v in normal:
                 texts.extend(pcx)
